@@ -92,7 +92,7 @@ func vResponseFor(tid [12]byte, class stun.MessageClass) []byte {
 // Two concurrent transactions, one inbound response with an arbitrary transaction id: only the
 // transaction with that id completes, with that message, once; duplicates and strangers are ignored.
 //
-//verif:props=C12,C18 replay=model bounds="two pending transactions with arbitrary distinct ids; a response with an arbitrary id (success or error class), delivered twice"
+//verif:props=C12,C18,C09 replay=model bounds="two pending transactions with arbitrary distinct ids; a response with an arbitrary id (success or error class) from an arbitrary source address, delivered twice, then once more from the address the request went to"
 func VerifHarness_C12_response_matching() {
 	conn := &allocation.VPacketConn{Name: "client"}
 	c := vNewClient(conn, 200*time.Millisecond)
@@ -140,6 +140,12 @@ func VerifHarness_C12_response_matching() {
 	vAssert(vAnd(h2, err2 == nil), "C12.duplicate_response_is_ignored_quietly")
 	vAssert(vAnd(d1 <= 1, d2 <= 1), "C12.completes_at_most_once")
 	vAssert(c.trMap.Size() == want, "C12.duplicate_changes_nothing")
+	// whatever the client thinks of a response from another source address: the genuine response (from the
+	// address the request went to) releases the caller - a stray datagram must not use the transaction up
+	_, _ = c.HandleInbound(raw, to)
+	vYield()
+	vAssertIf(is1, d1 == 1, "C09.stray_datagram_with_a_pending_id_cannot_wedge_the_caller")
+	vAssertIf(is1, d1 == 1, "C12.completes_with_the_genuine_response")
 	// the retransmission timer of a completed transaction is stopped, the other one still runs
 	_ = e2
 	vAssert(vLocksHeld() == 0, "C12.no_lock_left_held")
